@@ -409,7 +409,7 @@ Definition run_cfg (vs : list value) (g : tape) (disable_sync : bool) (n : nat)
     capacity; an append within capacity writes into the array and is seen by
     every slice sharing it.  (The delay fields only feed time.Sleep; not modelled.) *)
 
-Definition fix_C20_3 : bool := false.
+Definition fix_C20_3 : bool := true.
   (* DEFECT C20_3: NewFixed shares the configuration's slice; with the patch
      (copy in NewFixed) this switch becomes [true] *)
 
